@@ -344,7 +344,7 @@ def run(ctx, anchors=None):
 
 
 MUTANTS = [
-    dict(name="haswitness-siblings-disagree", file="primitives/transaction.h", after="class CTransaction", find="            if (!vin[i].scriptWitness.IsNull()) {\n                return true;\n            }\n        }\n        return false;", replace="            if (vin[i].scriptWitness.IsNull()) {\n                return false;\n            }\n        }\n        return true;", expect=["R13.7:siblings-agree:HasWitness"]),
+    dict(name="haswitness-siblings-disagree", file="primitives/transaction.h", after="as opposed to GetHash() in CTransaction, which uses a cached result.", find="            if (!vin[i].scriptWitness.IsNull()) {\n                return true;", replace="            if (!vin[i].scriptWitness.IsNull() && !vin[i].scriptSig.empty()) {\n                return true;", expect=["R13.7:siblings-agree:HasWitness"]),
     dict(name="conversion-drops-locktime", file="primitives/transaction.cpp", find="CMutableTransaction::CMutableTransaction(const CTransaction& tx) : vin(tx.vin), vout(tx.vout), nVersion(tx.nVersion), nLockTime(tx.nLockTime) {}", replace="CMutableTransaction::CMutableTransaction(const CTransaction& tx) : vin(tx.vin), vout(tx.vout), nVersion(tx.nVersion), nLockTime(0) {}", expect=["R13.6:copies-all-fields:CMutableTransaction"]),
     dict(name="conversion-swaps-version-and-locktime", file="primitives/transaction.cpp", find="CTransaction::CTransaction(const CMutableTransaction& tx) : vin(tx.vin), vout(tx.vout), nVersion(tx.nVersion), nLockTime(tx.nLockTime)", replace="CTransaction::CTransaction(const CMutableTransaction& tx) : vin(tx.vin), vout(tx.vout), nVersion(tx.nLockTime), nLockTime(tx.nVersion)", expect=["R13.6:copies-all-fields:CTransaction"]),
     dict(name="writer-vout-before-vin", file="primitives/transaction.h", find="    s << tx.vin;\n    s << tx.vout;\n    if (flags & 1) {", replace="    s << tx.vout;\n    s << tx.vin;\n    if (flags & 1) {", expect=["R13.1:mirror", "R13.1:format"]),
